@@ -1,0 +1,26 @@
+//! Verification instrumentation, compiled only with the `verif-hooks` feature.
+//!
+//! A thread-local counter of iterations of the wire name decoding loop (labels read plus
+//! compression pointers followed), so that an external harness can bound decoding work
+//! deterministically instead of by wall-clock time.
+
+use core::cell::Cell;
+
+std::thread_local! {
+    static NAME_DECODE_STEPS: Cell<u64> = const { Cell::new(0) };
+}
+
+/// Reset the calling thread's name-decode step counter to zero.
+pub fn reset_name_decode_steps() {
+    NAME_DECODE_STEPS.with(|c| c.set(0));
+}
+
+/// Read the calling thread's name-decode step counter.
+pub fn name_decode_steps() -> u64 {
+    NAME_DECODE_STEPS.with(|c| c.get())
+}
+
+#[inline]
+pub(crate) fn count_name_decode_step() {
+    NAME_DECODE_STEPS.with(|c| c.set(c.get().wrapping_add(1)));
+}
